@@ -194,24 +194,40 @@ Proof. intros. rewrite <- bytes_cmp_eqb. destruct (bytes_cmp a b); reflexivity. 
 Definition num_view (v : value) : option Z :=
   match v with VInt x | VTime x => Some x | VU64 n => Some (Z.of_N n) | _ => None end.
 Definition str_view (v : value) : option bytes :=
-  match v with VStr t | VEnum t => Some t | _ => None end.
+  match v with
+  | VStr t | VEnum t => Some t
+  | VBool b => Some (if b then b_true else b_false)
+  | _ => None
+  end.
 
 Definition is_num_kind (k : kind) : bool := match k with KInt | KU64 | KTime => true | _ => false end.
-Definition is_str_kind (k : kind) : bool := match k with KStr | KEnum _ => true | _ => false end.
+Definition is_str_kind (k : kind) : bool := match k with KStr | KEnum _ | KBool => true | _ => false end.
 
 Definition small_u64 (v : value) : Prop :=
   match v with VU64 n => (Z.of_N n <= i64_max)%Z | _ => True end.
 
-(** what [atom_class d op l = None] leaves: a numeric condition on a numeric/time field, or a
-    string condition on a string/enum field *)
+(** the switches of the Rust text (Gen/Params.v) the repaired fragment depends on: if one of them
+    flips back, these lemmas — and with them [exact_outside_known] — stop checking *)
+Lemma p_mem_f64 : query_mem_f64_view = true. Proof. reflexivity. Qed.
+Lemma p_i64_claims : query_i64_buffer_claims_all = false. Proof. reflexivity. Qed.
+Lemma p_bool_view : query_bool_block_str_view = true. Proof. reflexivity. Qed.
+Lemma p_hydrate : query_hydrate_tagged_only = false. Proof. reflexivity. Qed.
+
+(** what [atom_class d op l = None] leaves: a numeric condition on an integer/time field, an
+    integer threshold below 2^53 on a float field, or a string condition on a string / enum /
+    bool field *)
 Inductive good_atom (d : fdecl) (op : cmp) (l : lit) : Prop :=
 | GoodNum (z : Z) :
     is_num_kind (f_kind d) = true -> build_lit l = BNum z ->
-    lit_scaled (f_kind d) l = Some (scale_int z) -> op <> CNe ->
-    (f_kind d = KU64 -> (op = CGt \/ op = CGe) -> (0 <= z)%Z) ->
+    lit_scaled (f_kind d) l = Some (scale_int z) ->
+    (f_kind d = KU64 -> (op = CGt \/ op = CGe \/ op = CNe) -> (0 <= z)%Z) ->
+    good_atom d op l
+| GoodFloat (z : Z) :
+    f_kind d = KFloat -> l = LInt z -> (Z.abs z < 2 ^ 53)%Z ->
     good_atom d op l
 | GoodStr (s : bytes) :
     is_str_kind (f_kind d) = true -> l = LStr s -> build_lit l = BStr s ->
+    (f_kind d = KBool -> s = b_true \/ s = b_false) ->
     (op = CEq \/ (op = CNe /\ f_opt d = false)) ->
     (f_opt d = true -> null_like s = false) ->
     good_atom d op l.
@@ -223,43 +239,63 @@ Proof.
   destruct (parse_i64 s); [discriminate|]. reflexivity.
 Qed.
 
+Lemma bool_lit_cases : forall op s, wt_atom KBool op (LStr s) = true ->
+  (s = b_true \/ s = b_false) /\ is_range op = false.
+Proof.
+  intros op s H. simpl in H. apply andb_true_iff in H as [H1 H2].
+  split; [|now apply negb_true_iff in H2].
+  apply orb_true_iff in H1 as [E|E]; apply bytes_eqb_eq in E; auto.
+Qed.
+
+Lemma op_eq_or_ne : forall op, is_range op = false -> op = CEq \/ op = CNe.
+Proof. destruct op; simpl; intros; try discriminate; auto. Qed.
+
 Lemma atom_class_none : forall d op l, atom_class d op l = None -> good_atom d op l.
 Proof.
   intros d op l H. unfold atom_class in H. destruct l as [z|b j|s|b].
   - (* LInt *)
     destruct (f_kind d) eqn:K; try discriminate.
-    + apply (GoodNum d op (LInt z) z); rewrite ?K; auto; try congruence.
-      destruct op; try discriminate; congruence.
+    + apply (GoodNum d op (LInt z) z); rewrite ?K; auto; congruence.
     + apply (GoodNum d op (LInt z) z); rewrite ?K; auto.
-      * destruct op; try discriminate; congruence.
-      * intros _ [->| ->]; destruct (z <? 0)%Z eqn:E; try discriminate; apply Z.ltb_ge in E; lia.
-    + apply (GoodNum d op (LInt z) z); rewrite ?K; auto; try congruence.
-      destruct op; try discriminate; congruence.
+      intros _ [->|[->| ->]]; destruct (z <? 0)%Z eqn:E; try discriminate; apply Z.ltb_ge in E; lia.
+    + destruct (Z.abs z <? 2 ^ 53)%Z eqn:E; [|discriminate].
+      apply (GoodFloat d op (LInt z) z); auto. now apply Z.ltb_lt.
+    + apply (GoodNum d op (LInt z) z); rewrite ?K; auto; congruence.
   - destruct (wt_atom (f_kind d) op (LFloat b j)); discriminate.
   - (* LStr *)
     destruct (f_kind d) eqn:K; try discriminate.
     + (* KStr *)
       destruct (is_plain_str s) eqn:P; simpl in H; [|discriminate].
       destruct (is_range op) eqn:R; [discriminate|].
-      apply (GoodStr d op (LStr s) s); rewrite ?K; auto using plain_build.
-      * destruct op; try discriminate; auto.
-      * intros O. rewrite O in H. destruct op; simpl in *; try discriminate;
-          destruct (null_like s); auto; discriminate.
+      destruct (f_opt d && null_like s) eqn:N1; [discriminate|].
+      destruct (f_opt d && is_ne op) eqn:N2; [discriminate|].
+      apply (GoodStr d op (LStr s) s); rewrite ?K; auto using plain_build; try congruence.
+      * destruct (op_eq_or_ne op R) as [->| ->]; auto. right. split; auto.
+        destruct (f_opt d); simpl in *; congruence.
+      * intros O. rewrite O in N1. exact N1.
     + (* KBool *)
-      destruct (wt_atom KBool op (LStr s)); discriminate.
+      destruct (wt_atom KBool op (LStr s)) eqn:W; [|discriminate].
+      destruct (f_opt d && is_ne op) eqn:N2; [discriminate|].
+      destruct (bool_lit_cases op s W) as [BS R].
+      apply (GoodStr d op (LStr s) s); rewrite ?K; auto.
+      * destruct BS as [->| ->]; vm_compute; reflexivity.
+      * destruct (op_eq_or_ne op R) as [->| ->]; auto. right. split; auto.
+        destruct (f_opt d); simpl in *; congruence.
+      * intros _. destruct BS as [->| ->]; vm_compute; reflexivity.
     + (* KEnum *)
       destruct (is_range op) eqn:R; [discriminate|].
       destruct (is_plain_str s) eqn:P; simpl in H; [|discriminate].
-      apply (GoodStr d op (LStr s) s); rewrite ?K; auto using plain_build.
-      * destruct (f_opt d); destruct op; simpl in *; try discriminate; auto;
-          destruct (null_like s); simpl in *; try discriminate; auto.
-      * intros O. rewrite O in H. destruct (null_like s); simpl in *; [discriminate|reflexivity].
+      destruct (f_opt d && null_like s) eqn:N1; [discriminate|].
+      destruct (f_opt d && is_ne op) eqn:N2; [discriminate|].
+      apply (GoodStr d op (LStr s) s); rewrite ?K; auto using plain_build; try congruence.
+      * destruct (op_eq_or_ne op R) as [->| ->]; auto. right. split; auto.
+        destruct (f_opt d); simpl in *; congruence.
+      * intros O. rewrite O in N1. exact N1.
     + (* KTime *)
       destruct (parse_str_to_epoch_seconds s) as [v|] eqn:P; [|discriminate].
       apply (GoodNum d op (LStr s) v); rewrite ?K; auto; try congruence.
       * unfold build_lit. now rewrite P.
       * simpl. now rewrite P.
-      * destruct op; try discriminate; congruence.
   - destruct (wt_atom (f_kind d) op (LBool b)); discriminate.
 Qed.
 
@@ -280,13 +316,46 @@ Qed.
 
 Lemma sat_str_view : forall d v op s,
   is_str_kind (f_kind d) = true -> conforms d v = true ->
+  (f_kind d = KBool -> s = b_true \/ s = b_false) ->
   (op = CEq \/ op = CNe) ->
   sat_cmp (f_kind d) v op (LStr s) = match str_view v with Some t => str_op op t s | None => false end.
 Proof.
-  intros d v op s K C O.
+  intros d v op s K C BS O.
   destruct v; simpl in *; try reflexivity;
-    try (destruct (f_kind d); simpl in *; discriminate);
-    destruct O as [-> | ->]; simpl; rewrite <- bytes_cmp_eqb; destruct (bytes_cmp _ _); reflexivity.
+    try (destruct (f_kind d); simpl in *; discriminate).
+  - destruct O as [-> | ->]; simpl; rewrite <- bytes_cmp_eqb; destruct (bytes_cmp _ _); reflexivity.
+  - (* VBool *)
+    assert (KB : f_kind d = KBool) by (destruct (f_kind d); simpl in *; try discriminate; reflexivity).
+    destruct (BS KB) as [-> | ->]; destruct b; destruct O as [-> | ->]; vm_compute; reflexivity.
+  - destruct O as [-> | ->]; simpl; rewrite <- bytes_cmp_eqb; destruct (bytes_cmp _ _); reflexivity.
+Qed.
+
+(** a float cell against an integer threshold below 2^53: [threshold as f64] is exact *)
+Lemma as_f64_exact : forall z, (Z.abs z < 2 ^ 53)%Z -> i64_as_f64_scaled z = scale_int z.
+Proof.
+  intros z H. unfold i64_as_f64_scaled.
+  assert (E : (Z.abs z <? 2 ^ 53)%Z = true) by now apply Z.ltb_lt.
+  rewrite E. f_equal. destruct (z <? 0)%Z eqn:N; [apply Z.ltb_lt in N|apply Z.ltb_ge in N]; lia.
+Qed.
+
+Definition float_view (v : value) : option N :=
+  match v with VFloat b _ => Some b | _ => None end.
+
+Lemma sat_float_view : forall d v op z, f_kind d = KFloat -> conforms d v = true ->
+  sat_cmp (f_kind d) v op (LInt z)
+  = match float_view v with Some b => cmp_holds op (Z.compare (f64_scaled b) (scale_int z)) | None => false end.
+Proof.
+  intros d v op z K C. rewrite K. destruct v; simpl in *; try reflexivity; try rewrite K in C; discriminate.
+Qed.
+
+Lemma mem_float_view : forall d v op z, f_kind d = KFloat -> conforms d v = true -> (Z.abs z < 2 ^ 53)%Z ->
+  mem_num (to_mem v) op z
+  = match float_view v with Some b => cmp_holds op (Z.compare (f64_scaled b) (scale_int z)) | None => false end.
+Proof.
+  intros d v op z K C A.
+  destruct v; simpl in C; try rewrite K in C; try discriminate; cbn [to_mem float_view]; unfold mem_num;
+    cbn [m_as_i64]; try reflexivity.
+  rewrite p_mem_f64. now rewrite (as_f64_exact z A).
 Qed.
 
 (** in memory *)
@@ -320,10 +389,10 @@ Lemma mem_str_view : forall d v op s, is_str_kind (f_kind d) = true -> conforms 
   str_op op (m_to_string (to_mem v)) s = match str_view v with Some t => str_op op t s | None => false end.
 Proof.
   intros d v op s K C O NL.
-  destruct v; simpl in *; try reflexivity;
-    try (destruct (f_kind d); simpl in *; discriminate).
-  - (* VNull *) destruct O as [-> | [-> O]]; [|congruence]. simpl. now apply null_like_false, NL.
-  - (* VAbsent *) destruct O as [-> | [-> O]]; [|congruence]. simpl. now apply null_like_false, NL.
+  destruct v; cbn [to_mem m_to_string str_view]; try reflexivity;
+    try (simpl in C; destruct (f_kind d); simpl in *; discriminate).
+  - (* VNull *) simpl in C. destruct O as [-> | [-> O]]; [|congruence]. simpl. now apply null_like_false, NL.
+  - (* VAbsent *) simpl in C. destruct O as [-> | [-> O]]; [|congruence]. simpl. now apply null_like_false, NL.
 Qed.
 
 (** in a hydrated zone: [g] is the column accessor of the row *)
@@ -331,12 +400,12 @@ Definition cell_of (d : fdecl) (v : value) (c : option cell) : Prop :=
   c = Some (to_cell (f_kind d) v) \/ (c = None /\ v = VAbsent).
 
 Lemma seg_num_view : forall d v c op z,
-  is_num_kind (f_kind d) = true -> conforms d v = true -> cell_of d v c -> op <> CNe ->
-  (f_kind d = KU64 -> (op = CGt \/ op = CGe) -> (0 <= z)%Z) ->
+  is_num_kind (f_kind d) = true -> conforms d v = true -> cell_of d v c ->
+  (f_kind d = KU64 -> (op = CGt \/ op = CGe \/ op = CNe) -> (0 <= z)%Z) ->
   num_at c op z = match num_view v with Some x => cmpZ op x z | None => false end /\
   num_simd c op z = match num_view v with Some x => cmpZ op x z | None => false end.
 Proof.
-  intros d v c op z K C [-> | [-> ->]] NE U; [|split; reflexivity].
+  intros d v c op z K C [-> | [-> ->]] U; [|split; reflexivity].
   destruct (f_kind d) eqn:KK; try discriminate; destruct v; simpl in *; try rewrite KK in C;
     try discriminate; auto.
   (* u64 *)
@@ -345,8 +414,21 @@ Proof.
   apply Z.ltb_lt in E. assert (Hn : (0 <= Z.of_N n)%Z) by lia.
   unfold cmpZ. destruct (Z.compare_spec (Z.of_N n) z); try lia.
   destruct query_u64_neg_rejects_all;
-    (destruct op; simpl; try (split; reflexivity); try congruence;
+    (destruct op; simpl; try (split; reflexivity);
      exfalso; assert (0 <= z)%Z by (apply U; auto); lia).
+Qed.
+
+Lemma seg_float_view : forall d v c op z, f_kind d = KFloat -> conforms d v = true -> cell_of d v c ->
+  (Z.abs z < 2 ^ 53)%Z ->
+  num_at c op z
+  = match float_view v with Some b => cmp_holds op (Z.compare (f64_scaled b) (scale_int z)) | None => false end /\
+  num_simd c op z
+  = match float_view v with Some b => cmp_holds op (Z.compare (f64_scaled b) (scale_int z)) | None => false end.
+Proof.
+  intros d v c op z K C [-> | [-> ->]] A; [|split; reflexivity].
+  rewrite K. destruct v; simpl in C; try rewrite K in C; try discriminate;
+    cbn [to_cell float_view num_at num_simd]; rewrite ?p_i64_claims; cbn [num_at];
+    rewrite ?(as_f64_exact z A); split; reflexivity.
 Qed.
 
 Lemma seg_str_view : forall d v c op s, is_str_kind (f_kind d) = true -> conforms d v = true -> cell_of d v c ->
@@ -354,9 +436,9 @@ Lemma seg_str_view : forall d v c op s, is_str_kind (f_kind d) = true -> conform
   str_at c op s = match str_view v with Some t => str_op op t s | None => false end.
 Proof.
   intros d v c op s K C [-> | [-> ->]] O NL; [|reflexivity].
-  destruct (f_kind d) eqn:KK; try discriminate; destruct v; simpl in *; try rewrite KK in C;
-    try discriminate; auto;
-    (destruct O as [-> | [-> O]]; [|congruence]); specialize (NL C);
+  destruct (f_kind d) eqn:KK; try discriminate; destruct v; simpl in C; try rewrite KK in C;
+    try discriminate; unfold str_at; cbn [to_cell cell_str str_view]; rewrite ?p_bool_view; try reflexivity;
+    (destruct O as [-> | [-> O]]; [|congruence]); specialize (NL C); cbn [str_op];
     (destruct s; [discriminate NL | reflexivity]).
 Qed.
 
@@ -385,6 +467,15 @@ Lemma first_some_none : forall A (l : list (option A)), first_some l = None -> F
 Proof. induction l as [|[a|] l IH]; simpl; intros H; [constructor|discriminate|constructor; auto]. Qed.
 
 (** IN over good numeric literals *)
+Lemma good_num_kind : forall d l, is_num_kind (f_kind d) = true -> good_atom d CEq l ->
+  exists z, build_lit l = BNum z /\ lit_scaled (f_kind d) l = Some (scale_int z).
+Proof.
+  intros d l K G. destruct G as [z _ B L _ | z K' _ _ | s K' -> B _ _ _].
+  - eauto.
+  - rewrite K' in K. discriminate.
+  - exfalso. destruct (f_kind d); simpl in *; discriminate.
+Qed.
+
 Lemma all_nums_good : forall d ls,
   is_num_kind (f_kind d) = true ->
   Forall (fun l => good_atom d CEq l) ls ->
@@ -396,7 +487,7 @@ Proof.
   intros d ls K F. induction F as [|l ls G F IH].
   - exists []. repeat split; auto. intros v _. simpl. destruct (num_view v); reflexivity.
   - destruct IH as [zs [A [Len S]]].
-    destruct G as [z _ B L _ _ | s K' _ _ _ _]; [|destruct (f_kind d); discriminate].
+    destruct (good_num_kind d l K G) as [z [B L]].
     exists (z :: zs). split; [|split].
     + simpl. unfold lit_num. rewrite B, A. reflexivity.
     + simpl. now rewrite Len.
@@ -408,6 +499,16 @@ Lemma mem_bytes_none : forall ss t, Forall (fun s => bytes_eqb t s = false) ss -
 Proof. induction 1; simpl; auto. now rewrite H, IHForall. Qed.
 
 (** IN over good string literals *)
+Lemma good_str_kind : forall d l, is_str_kind (f_kind d) = true -> good_atom d CEq l ->
+  exists s, l = LStr s /\ build_lit l = BStr s /\
+    (f_kind d = KBool -> s = b_true \/ s = b_false) /\ (f_opt d = true -> null_like s = false).
+Proof.
+  intros d l K G. destruct G as [z K' _ _ _ | z K' _ _ | s _ -> B BS _ NL].
+  - exfalso. destruct (f_kind d); simpl in *; discriminate.
+  - rewrite K' in K. discriminate.
+  - eauto 6.
+Qed.
+
 Lemma all_strs_good : forall d ls,
   is_str_kind (f_kind d) = true ->
   Forall (fun l => good_atom d CEq l) ls ->
@@ -421,11 +522,12 @@ Proof.
   - split; [congruence|]. split; [intros _; constructor|].
     intros v _. simpl. destruct (str_view v); reflexivity.
   - destruct IH as [_ [NLs S]].
-    destruct G as [z K' _ _ _ _ | s _ -> B _ NL]; [destruct (f_kind d); discriminate|].
+    destruct (good_str_kind d l K G) as [s [-> [B [BS NL]]]].
     split; [|split].
     + intros _. simpl. unfold lit_num. now rewrite B.
     + intros O. simpl. constructor; auto.
-    + intros v C. simpl. rewrite (S v C). rewrite (sat_str_view d v CEq s K C (or_introl eq_refl)).
+    + intros v C. cbn [existsb map lit_text mem_bytes]. rewrite (S v C).
+      rewrite (sat_str_view d v CEq s K C BS (or_introl eq_refl)).
       destruct (str_view v); reflexivity.
 Qed.
 
@@ -488,24 +590,30 @@ Proof.
     assert (SM : small_u64 v) by (eapply small_from_big; eauto; apply BU; simpl; auto).
     apply atom_class_none in EC.
     simpl sat. unfold sat_atom. rewrite LK.
-    destruct EC as [z K B L _ _ | s K -> B O NL].
+    destruct EC as [z K B L _ | z K -> A | s K -> B BS O NL].
     + exists (CNum f op z). split; [cbn [build]; now rewrite B|].
       cbn [eval_mem]. unfold mem_get. rewrite LK. rewrite (mem_num_exact d v op z K C SM).
       now rewrite (sat_num_view d v op l z K C L).
+    + exists (CNum f op z). split; [reflexivity|].
+      cbn [eval_mem]. unfold mem_get. rewrite LK. rewrite (mem_float_view d v op z K C A).
+      now rewrite (sat_float_view d v op z K C).
     + exists (CStrC f op s). split; [cbn [build]; now rewrite B|].
-      simpl. unfold mem_get. rewrite LK. rewrite (mem_str_view d v op s K C O NL).
-      rewrite (sat_str_view d v op s K C); [reflexivity|]. destruct O as [->|[-> _]]; auto.
+      cbn [eval_mem]. unfold mem_get. rewrite LK. rewrite (mem_str_view d v op s K C O NL).
+      rewrite (sat_str_view d v op s K C BS); [reflexivity|]. destruct O as [->|[-> _]]; auto.
   - destruct (find_decl sch f) as [d|] eqn:FD; [|discriminate].
     destruct ls as [|l0 ls]; [discriminate|].
     destruct (lookup_conforms sch (ev_row ev) f d RC FD) as [v [LK C]].
     assert (SM : small_u64 v) by (eapply small_from_big; eauto; apply BU; simpl; auto).
+    assert (EC' : first_some (map (atom_class d CEq) (l0 :: ls)) = None /\ f_kind d <> KFloat)
+      by (destruct (f_kind d); try discriminate; split; auto; discriminate).
+    destruct EC' as [EC' NF]. clear EC. rename EC' into EC.
     apply first_some_none in EC.
     assert (G : Forall (fun l => good_atom d CEq l) (l0 :: ls)).
     { apply Forall_forall. intros l Hl. apply atom_class_none.
       rewrite Forall_forall in EC. apply EC. apply in_map_iff. eauto. }
     rewrite (sat_in_lookup sch (ev_row ev) f d v (l0 :: ls) LK).
     assert (G0 : good_atom d CEq l0) by (inversion G; auto).
-    destruct G0 as [z0 K _ _ _ _ | s0 K _ _ _ _].
+    destruct G0 as [z0 K _ _ _ | z0 K _ _ | s0 K _ _ _ _ _]; [|contradiction|].
     + destruct (all_nums_good d (l0 :: ls) K G) as [zs [A [Len S]]].
       destruct zs as [|z zs]; [simpl in Len; discriminate|].
       exists (CInNum f (z :: zs)). split.
@@ -577,25 +685,31 @@ Proof.
     pose proof (seg_cell_of sch hollow (ev_row ev) f d v LK HO) as CO.
     apply atom_class_none in EC.
     simpl sat. unfold sat_atom. rewrite LK.
-    destruct EC as [z K B L NE U | s K -> B O NL].
+    destruct EC as [z K B L U | z K -> A | s K -> B BS O NL].
     + exists (CNum f op z). split; [cbn [build]; now rewrite B|].
-      destruct (seg_num_view d v _ op z K C CO NE U) as [E1 E2].
+      destruct (seg_num_view d v _ op z K C CO U) as [E1 E2].
       rewrite (sat_num_view d v op l z K C L). cbn [eval_at eval_seg_top]. now rewrite E1, E2.
+    + exists (CNum f op z). split; [reflexivity|].
+      destruct (seg_float_view d v _ op z K C CO A) as [E1 E2].
+      rewrite (sat_float_view d v op z K C). cbn [eval_at eval_seg_top]. now rewrite E1, E2.
     + exists (CStrC f op s). split; [cbn [build]; now rewrite B|].
-      rewrite (sat_str_view d v op s K C); [|destruct O as [->|[-> _]]; auto].
+      rewrite (sat_str_view d v op s K C BS); [|destruct O as [->|[-> _]]; auto].
       cbn [eval_at eval_seg_top]. now rewrite (seg_str_view d v _ op s K C CO O NL).
   - destruct (find_decl sch f) as [d|] eqn:FD; [|discriminate].
     destruct ls as [|l0 ls]; [discriminate|].
     destruct (lookup_conforms sch (ev_row ev) f d RC FD) as [v [LK C]].
     assert (SM : small_u64 v) by (eapply small_from_big; eauto; apply BU; simpl; auto).
     pose proof (seg_cell_of sch hollow (ev_row ev) f d v LK HO) as CO.
+    assert (EC' : first_some (map (atom_class d CEq) (l0 :: ls)) = None /\ f_kind d <> KFloat)
+      by (destruct (f_kind d); try discriminate; split; auto; discriminate).
+    destruct EC' as [EC' NF]. clear EC. rename EC' into EC.
     apply first_some_none in EC.
     assert (G : Forall (fun l => good_atom d CEq l) (l0 :: ls)).
     { apply Forall_forall. intros l Hl. apply atom_class_none.
       rewrite Forall_forall in EC. apply EC. apply in_map_iff. eauto. }
     rewrite (sat_in_lookup sch (ev_row ev) f d v (l0 :: ls) LK).
     assert (G0 : good_atom d CEq l0) by (inversion G; auto).
-    destruct G0 as [z0 K _ _ _ _ | s0 K _ _ _ _].
+    destruct G0 as [z0 K _ _ _ | z0 K _ _ | s0 K _ _ _ _ _]; [|contradiction|].
     + destruct (all_nums_good d (l0 :: ls) K G) as [zs [A [Len S]]].
       destruct zs as [|z zs]; [simpl in Len; discriminate|].
       exists (CInNum f (z :: zs)). split; [unfold build; now rewrite A|].
@@ -876,8 +990,7 @@ Proof.
   congruence.
 Qed.
 
-(** QUERY is exact for every query outside the known classes, over sound leaves, in every layout. *)
-Theorem exact_outside_known : forall sch ans L q,
+Lemma exact_outside_known_mp : forall sch ans L q,
   (forall ev, In ev (events L) -> row_conforms sch (ev_row ev) = true) ->
   known_class sch (events L) q = None ->
   mixed_provenance sch ans L q = false ->
@@ -901,6 +1014,18 @@ Proof.
       apply in_flat_map. exists s. split; auto. unfold seg_events. apply in_flat_map. eauto.
 Qed.
 
+(** since /repo d4c8eed every candidate zone is hydrated, whatever its provenance *)
+Lemma mixed_provenance_gone : forall sch ans L q, mixed_provenance sch ans L q = false.
+Proof. intros. unfold mixed_provenance. now rewrite p_hydrate. Qed.
+
+(** QUERY is exact for every query outside the known classes, over sound leaves, in every layout. *)
+Theorem exact_outside_known : forall sch ans L q,
+  (forall ev, In ev (events L) -> row_conforms sch (ev_row ev) = true) ->
+  known_class sch (events L) q = None ->
+  leaves_sound sch ans L q = true ->
+  run_query sch ans L q = filter (sat_query sch q) (events L).
+Proof. intros. apply exact_outside_known_mp; auto using mixed_provenance_gone. Qed.
+
 (** hence the answer depends only on the multiset of stored events *)
 From Coq Require Import Permutation.
 Lemma filter_perm : forall A (p : A -> bool) l l', Permutation l l' -> Permutation (filter p l) (filter p l').
@@ -915,11 +1040,11 @@ Theorem layout_independent : forall sch ans1 ans2 L1 L2 q,
   Permutation (events L1) (events L2) ->
   (forall ev, In ev (events L1) -> row_conforms sch (ev_row ev) = true) ->
   known_class sch (events L1) q = None ->
-  mixed_provenance sch ans1 L1 q = false -> leaves_sound sch ans1 L1 q = true ->
-  mixed_provenance sch ans2 L2 q = false -> leaves_sound sch ans2 L2 q = true ->
+  leaves_sound sch ans1 L1 q = true ->
+  leaves_sound sch ans2 L2 q = true ->
   Permutation (run_query sch ans1 L1 q) (run_query sch ans2 L2 q).
 Proof.
-  intros sch ans1 ans2 L1 L2 q P RC KC M1 S1 M2 S2.
+  intros sch ans1 ans2 L1 L2 q P RC KC S1 S2.
   assert (RC2 : forall ev, In ev (events L2) -> row_conforms sch (ev_row ev) = true).
   { intros ev I. apply RC. eapply Permutation_in; [apply Permutation_sym; eauto|auto]. }
   assert (KC2 : known_class sch (events L2) q = None).
@@ -957,6 +1082,15 @@ Definition w_r1 : event := mk_event w_c1
   [VInt 1; VU64 1; VFloat f_1_5 s_1_5; VStr s_x; VBool true; VEnum s_lo; VTime 0; VNull; VNull].
 Definition w_r2 : event := mk_event w_c1
   [VInt 2; VU64 2; VFloat f_2_5 s_2_5; VStr s_7; VBool false; VEnum s_hi; VTime 0; VStr s_p; VInt 5].
+(** a float cell holding the integer 2, and one holding 2^53 *)
+Definition f_2_0 : N := 4611686018427387904%N.    (* 2.0 *)
+Definition f_2p53 : N := 4845873199050653696%N.   (* 9007199254740992.0 *)
+Definition s_2 := bs [50%N].
+Definition s_2p53 := bs [57; 48; 48; 55; 49; 57; 57; 50; 53; 52; 55; 52; 48; 57; 57; 50]%N.
+Definition w_r4 : event := mk_event w_c1
+  [VInt 4; VU64 4; VFloat f_2_0 s_2; VStr s_x; VBool true; VEnum s_lo; VTime 0; VNull; VNull].
+Definition w_r5 : event := mk_event w_c1
+  [VInt 5; VU64 5; VFloat f_2p53 s_2p53; VStr s_x; VBool true; VEnum s_lo; VTime 0; VNull; VNull].
 (** a u64 cell above i64::MAX *)
 Definition w_r3 : event := mk_event w_c1
   [VInt 3; VU64 (2 ^ 63); VFloat f_2_5 s_2_5; VStr s_y; VBool false; VEnum s_hi; VTime 0; VStr s_p; VInt 5].
@@ -966,6 +1100,8 @@ Definition w_mem : layout := mk_layout [w_r1; w_r2] [].
 Definition w_seg : layout := mk_layout [] [[mk_zone 0%N [w_r1; w_r2]]].
 Definition w_two : layout := mk_layout [] [[mk_zone 0%N [w_r1]]; [mk_zone 0%N [w_r2]]].
 Definition w_big : layout := mk_layout [w_r3] [].
+Definition w_f2 : layout := mk_layout [w_r4] [].
+Definition w_f53 : layout := mk_layout [w_r5] [[mk_zone 0%N [w_r5]]].
 
 (** the ideal structures: exactly the zones holding a satisfying row *)
 Definition w_ideal (L : layout) : nat -> leaf -> option (list zid) :=
@@ -997,15 +1133,17 @@ Lemma w_dropped : witness (Some LiteralDropped) (w_ideal w_mem) w_mem (qw (ECmp 
 Proof. witness_tac. Qed.
 Lemma w_dropped_seg : witness (Some LiteralDropped) (w_ideal w_seg) w_seg (qw (ECmp n_a CGt (LFloat f_1_5 s_1_5))).
 Proof. witness_tac. Qed.
-Lemma w_float : witness (Some FloatColumn) (w_ideal w_mem) w_mem (qw (ECmp n_f CGt (LInt 1))).
+Lemma w_float_in : witness (Some FloatColumnIn) (w_ideal w_f2) w_f2 (qw (EIn n_f [LInt 2])).
 Proof. witness_tac. Qed.
-Lemma w_float_seg : witness (Some FloatColumn) (w_ideal w_seg) w_seg (qw (ECmp n_f CGt (LInt 1))).
+(** [f < 2^53 + 1] on the cell 2^53: the threshold is rounded to 2^53 *)
+Lemma w_float_round : witness (Some FloatThresholdRounded) (w_ideal w_f53) w_f53
+  (qw (ECmp n_f CLt (LInt 9007199254740993))).
 Proof. witness_tac. Qed.
-Lemma w_bool : witness (Some BoolColumn) (w_ideal w_seg) w_seg (qw (ECmp n_b CEq (LStr b_true))).
+Lemma w_neq_opt : witness (Some NeqOnOptionalText) (w_ideal w_mem) w_mem (qw (ECmp n_os CNe (LStr s_zzz))).
 Proof. witness_tac. Qed.
-Lemma w_neq : witness (Some NeqPruned) (w_ideal w_seg) w_seg (qw (ECmp n_a CNe (LInt 1))).
+Lemma w_neq_opt_seg : witness (Some NeqOnOptionalText) (w_ideal w_seg) w_seg (qw (ECmp n_os CNe (LStr s_zzz))).
 Proof. witness_tac. Qed.
-Lemma w_enum : witness (Some EnumUnknownVariant) (w_ideal w_seg) w_seg (qw (ECmp n_e CNe (LStr s_zzz))).
+Lemma w_u64neg_ne : witness (Some U64NegativeThreshold) (w_ideal w_seg) w_seg (qw (ECmp n_u CNe (LInt (-1)))).
 Proof. witness_tac. Qed.
 Lemma w_u64neg : witness (Some U64NegativeThreshold) (w_ideal w_seg) w_seg (qw (ECmp n_u CGt (LInt (-1)))).
 Proof. witness_tac. Qed.
@@ -1017,26 +1155,31 @@ Lemma w_strord : witness (Some StringOrdering) (w_ideal w_mem) w_mem (qw (ECmp n
 Proof. witness_tac. Qed.
 Lemma w_nullsp : witness (Some NullSpelling) (w_ideal w_mem) w_mem (qw (ECmp n_os CEq (LStr b_null))).
 Proof. witness_tac. Qed.
-(** the temporal pruner clamps the probe to 0 and keeps zones whose maximum is above it: a zone
-    holding only the instant 0 is not returned for [d > -5] *)
-Lemma w_tneg : witness (Some TemporalNegativeLiteral) (fun _ _ => Some []) w_seg (qw (ECmp n_d CGt (LInt (-5)))).
-Proof. witness_tac. Qed.
-
-(** outside the static classes: the candidates mix uid-carrying zones (SuRF fallback of the segment
-    whose field holds a null) and bare zones (the other segment's SuRF answer), and a leaf answer
-    that is not a superset *)
-Definition w_mixed_ans : nat -> leaf -> option (list zid) :=
-  fun i _ => match i with O => None | _ => Some [0%N] end.
-Definition w_mixed_q : query := qw (ECmp n_oi CGe (LInt 0)).
-Lemma w_mixed :
-  witness None w_mixed_ans w_two w_mixed_q /\
-  mixed_provenance w_sch w_mixed_ans w_two w_mixed_q = true /\
-  leaves_sound w_sch w_mixed_ans w_two w_mixed_q = true.
-Proof. split; [witness_tac|split; vm_compute; reflexivity]. Qed.
+(** a leaf answer that is not a superset (C08) *)
 Lemma w_unsound :
   witness None (fun _ _ => Some []) w_seg (qw (ECmp n_a CEq (LInt 1))) /\
   leaves_sound w_sch (fun _ _ => Some []) w_seg (qw (ECmp n_a CEq (LInt 1))) = false.
 Proof. split; [witness_tac|vm_compute; reflexivity]. Qed.
+
+(** The former witnesses of the repaired classes (FloatColumn, BoolColumn, NeqPruned,
+    EnumUnknownVariant, TemporalNegativeLiteral over a sound temporal answer, MixedZoneProvenance)
+    are now answered exactly — closed instances of [exact_outside_known], kept as regression
+    anchors of the repairs: each one fails again if its switch in Gen/Params.v flips back. *)
+Definition exact_on (ans : nat -> leaf -> option (list zid)) (L : layout) (q : query) : Prop :=
+  known_class w_sch (events L) q = None /\ leaves_sound w_sch ans L q = true /\
+  run_query w_sch ans L q = filter (sat_query w_sch q) (events L).
+Ltac exact_tac := split; [vm_compute; reflexivity|split; vm_compute; reflexivity].
+Definition w_mixed_ans : nat -> leaf -> option (list zid) :=
+  fun i _ => match i with O => None | _ => Some [0%N] end.
+Lemma repaired_exact :
+  exact_on (w_ideal w_mem) w_mem (qw (ECmp n_f CGt (LInt 1))) /\
+  exact_on (w_ideal w_seg) w_seg (qw (ECmp n_f CGt (LInt 1))) /\
+  exact_on (w_ideal w_seg) w_seg (qw (ECmp n_b CEq (LStr b_true))) /\
+  exact_on (w_ideal w_seg) w_seg (qw (ECmp n_a CNe (LInt 1))) /\
+  exact_on (w_ideal w_seg) w_seg (qw (ECmp n_e CNe (LStr s_zzz))) /\
+  exact_on (w_ideal w_seg) w_seg (qw (ECmp n_d CGt (LInt (-5)))) /\
+  exact_on w_mixed_ans w_two (qw (ECmp n_oi CGe (LInt 0))).
+Proof. repeat split; vm_compute; reflexivity. Qed.
 
 (** [C02_exact]: QUERY does not return exactly the matching events — even over ideal pruning
     structures, for a well-typed predicate over conforming rows. *)
@@ -1054,12 +1197,14 @@ Qed.
 Definition ex_q : query :=
   mk_query (Some w_c1)
     (Some (EOr (EAnd (ECmp n_a CGe (LInt 2)) (EIn n_e [LStr s_hi; LStr s_zzz]))
-               (EAnd (ECmp n_s CEq (LStr s_x)) (ECmp n_u CLt (LInt (-3)))))).
+               (EOr (EAnd (ECmp n_s CEq (LStr s_x)) (ECmp n_u CLt (LInt (-3))))
+                    (EAnd (ECmp n_f CGt (LInt 2))
+                          (EAnd (ECmp n_b CEq (LStr b_false))
+                                (EAnd (ECmp n_a CNe (LInt 1)) (ECmp n_e CNe (LStr s_zzz)))))))).
 Definition ex_L : layout := mk_layout [w_r2] [[mk_zone 0%N [w_r1; w_r2]]; [mk_zone 0%N [w_r1]; mk_zone 1%N [w_r2; w_r2]]].
 Lemma outside_known_example :
   (forall ev, In ev (events ex_L) -> row_conforms w_sch (ev_row ev) = true) /\
   known_class w_sch (events ex_L) ex_q = None /\
-  mixed_provenance w_sch (w_ideal ex_L) ex_L ex_q = false /\
   leaves_sound w_sch (w_ideal ex_L) ex_L ex_q = true /\
   wt_query w_sch ex_q = true /\
   length (run_query w_sch (w_ideal ex_L) ex_L ex_q) = 4 /\ length (events ex_L) = 6.
@@ -1075,7 +1220,6 @@ Qed.
 Definition ex_L_mem : layout := mk_layout (events ex_L) [].
 Lemma layout_independent_example :
   Permutation (events ex_L) (events ex_L_mem) /\
-  mixed_provenance w_sch (w_ideal ex_L_mem) ex_L_mem ex_q = false /\
   leaves_sound w_sch (w_ideal ex_L_mem) ex_L_mem ex_q = true /\
   length (run_query w_sch (w_ideal ex_L_mem) ex_L_mem ex_q) = 4.
 Proof.
